@@ -21,6 +21,7 @@ import (
 
 type Case struct {
 	Forms []val.V
+	Src   string `json:",omitempty"` // hand-written corpus cases: source text instead of Forms
 	Uses  []string
 	Fuel  int
 }
@@ -47,6 +48,9 @@ func genCase(t *rapid.T) Case {
 
 func check(c Case) pbt.Verdict {
 	box.Silence()
+	if len(c.Forms) == 0 && c.Src != "" {
+		c.Forms = box.ParseForms(c.Src)
+	}
 	in := refmal.New()
 	if c.Fuel > 0 {
 		in.Fuel = c.Fuel
